@@ -1734,6 +1734,38 @@ def oracle_shapes(ctx):
                          "one configuration in two argument shapes gives two hashes: %r vs %r on %s" % (shapes[0], shapes[i], e))
 
 
+HEADER_X2 = HEADER_X + "\nFrom DD Require Import Hash.HashXBlind Hash.HashXLeaves Hash.HashXShow2."
+
+LEAF_EXTRA = ["datetime(2020, 1, 2, 12, 0, 0, tzinfo=timezone(timedelta(hours=2)))", "datetime(2020, 1, 2, 10, 0, 0, tzinfo=timezone(timedelta(0)))",
+              "datetime(2020, 1, 2, 10, 0, 0)", "datetime(2020, 1, 2, 10, 0, 30)", "datetime(2020, 1, 2, 10, 0, 30, 5)", "time(12, 30, 59)", "time(12, 30, 1)",
+              "date(2020, 1, 3)", "PosixPath('/a/B')", "timedelta(seconds=5, microseconds=1)", "Decimal('1.50')"]
+
+
+def cfg_blind_py(cfg):
+    """no listed path has a component an index can match: a sequence index, or a non-negative int key"""
+    return all(not (k == "i" or (k == "k" and isinstance(x, int) and not isinstance(x, bool) and x >= 0))
+               for p in list(cfg[0]) + list(cfg[1]) for k, x in p)
+
+
+def corr_leaves(ctx):
+    """C07_extended_leaf_texts_exact observed: the partition of a list of leaves by the implementation's hash == the
+    partition by the leaf's normal form computed in Coq (date triple / UTC instant after truncation / truncated seconds
+    / path), every leaf inside leaf_ok; default options and truncate_datetime='minute' / 'day'"""
+    exprs = [e for e in X_LEAVES[:54] + LEAF_EXTRA if not e.startswith("Col.")]
+    vals = [from_xrepr(e) for e in exprs]
+    cases = []
+    for tr in (None, "minute", "day"):
+        xo = (SET_MODE, True, False, tr, ())
+        from deepdiff import DeepHash
+        hs = [DeepHash(v, truncate_datetime=tr)[v] for v in vals]
+        leaves = "[%s]" % "; ".join(xatom_coq(v)[4:-1] for v in vals)      # "(XL l)" -> "l"
+        cases.append(("run_leaf_classes %s %s" % (coq_xopts(xo), leaves), [True, classes_of(hs)],
+                      {"leaves": len(vals), "truncate_datetime": tr, "check": "hash classes == normal-form classes"}))
+        n = len(vals)
+        ctx.evaluations += n * (n - 1) // 2
+    ctx.coq_cases("hash_x_leaves", HEADER_X2, cases, shard=1, label="leaf_normal_form_partitions")
+
+
 def corr_x(ctx, n_random):
     """extended model == implementation: root (hash, count) (or no hash at all when the root is skipped) and the set of all
     (hash, count) table values, under the hex hasher or apply_hash=False, over option records with several non-default
@@ -1820,6 +1852,17 @@ def corr_x(ctx, n_random):
                 if h1 != h0 and not x_memo_alias(v):
                     ctx.fail({"kind": "x_" + kind, "opts": list(o), "value": e}, "hash of a value with date / Decimal / Path / object leaves changed by %s: %s" % (kind, e))
     ctx.coq_cases("hash_x", HEADER_X, cases, shard=40, label="extended_model_root_count_and_table_values")
+    # the hypothesis of C06_extended_paths_blind as a Coq boolean on the configurations actually run
+    seen, blind = set(), []
+    for _m, _e, tag in cases:
+        cfg = tag.get("skip") if isinstance(tag, dict) else None
+        if cfg and repr(cfg) not in seen:
+            seen.add(repr(cfg))
+            b = cfg_blind_py(cfg)
+            ctx.count("x:cfg_blind:%s" % ("yes" if b else "no"))
+            blind.append(("run_cfg_blind %s" % coq_cfg(cfg), b, {"skip": cfg, "check": "cfg_blind"}))
+    ctx.coq_cases("hash_x_blind", HEADER_X2, blind, shard=300, label="skip_configurations_index_blindness")
+    corr_leaves(ctx)
 
 
 def run(ctx):
